@@ -26,20 +26,20 @@ CDef(z) == B!CDef(z[1])                       \* the VALUE is defined
 CK(z) == z
 Jets == TRUE
 
-Map1(F(_), z) == <<F(z[1]), F(z[2]), F(z[3]), F(z[4])>>
-CAdd(z, w) == <<B!CAdd(z[1], w[1]), B!CAdd(z[2], w[2]), B!CAdd(z[3], w[3]), B!CAdd(z[4], w[4])>>
+Map1(F(_), z0) == LET z == z0 IN <<F(z[1]), F(z[2]), F(z[3]), F(z[4])>>
+CAdd(z0, w0) == LET z == z0  w == w0 IN <<B!CAdd(z[1], w[1]), B!CAdd(z[2], w[2]), B!CAdd(z[3], w[3]), B!CAdd(z[4], w[4])>>
 CNeg(z) == Map1(B!CNeg, z)
 CSub(z, w) == CAdd(z, CNeg(w))
-CMul(z, w) ==
+CMul(z0, w0) == LET z == z0  w == w0 IN
   <<B!CMul(z[1], w[1]),
     B!CAdd(B!CMul(z[1], w[2]), B!CMul(z[2], w[1])),
     B!CAdd(B!CMul(z[1], w[3]), B!CMul(z[3], w[1])),
     B!CAdd(B!CAdd(B!CMul(z[1], w[4]), B!CMul(z[4], w[1])), B!CAdd(B!CMul(z[2], w[3]), B!CMul(z[3], w[2])))>>
 \* g(z) for an analytic g with g(z0) = g0, g'(z0) = g1, g''(z0) = g2 :
 \*   g0 + g1 z1 s + g1 z2 t + (g1 z3 + g2 z1 z2) st
-Compose(z, g0, g1, g2) ==
+Compose(z0, g00, g10, g20) == LET z == z0  g0 == g00  g1 == g10  g2 == g20 IN
   <<g0, B!CMul(g1, z[2]), B!CMul(g1, z[3]), B!CAdd(B!CMul(g1, z[4]), B!CMul(g2, B!CMul(z[2], z[3])))>>
-CInv(z) == LET i == B!CInv(z[1]) IN
+CInv(z0) == LET z == z0  i == B!CInv(z[1]) IN
            Compose(z, i, B!CNeg(B!CMul(i, i)), B!CMul(B!CI(2), B!CMul(i, B!CMul(i, i))))
 CDiv(z, w) == CMul(z, CInv(w))
 CConj(z) == Map1(B!CConj, z)
@@ -61,7 +61,7 @@ RECURSIVE CPowNat(_, _)
 CPowNat(z, k) == IF k = 0 THEN C1 ELSE CMul(z, CPowNat(z, k - 1))
 \* elementary functions at their decidable points: value and derivatives by the chain rule (Compose).
 \* Besides the rational point of each function (MathAt):  ln 2^k = k L (k = 1, 2, -1),  exp(k L) = 2^k.
-CMath(f, z) == LET m == B!MathAt(f) IN
+CMath(f, z0) == LET m == B!MathAt(f)  z == z0 IN
   IF ~B!CDef(z[1]) THEN CU
   ELSE IF z[1] = B!CI(m[1]) THEN Compose(z, B!CI(m[2]), B!CI(m[3]), B!CI(m[4]))
   ELSE IF f = "ln" /\ z[1] = B!CI(2) THEN Compose(z, B!LL, B!CQ2(1, 2), B!CQ2(0 - 1, 4))
@@ -73,7 +73,7 @@ CMath(f, z) == LET m == B!MathAt(f) IN
 \* z ** w.  A constant exponent: integer (negative: reciprocal) or 1/2.  An exponent that depends on the
 \* perturbation: z ** w = exp(w ln z) wherever ln z and that exponential are decidable (z = 1; z a power of 2
 \* with an integer exponent value); no power rule appears here.
-CPow(z, w) ==
+CPow(z0, w0) == LET z == z0  w == w0 IN
   IF ~B!CDef(z[1]) \/ ~B!CDef(w[1]) \/ ~B!CIsReal(w[1]) THEN CU
   ELSE IF ~Flat(w) THEN CMath("exp", CMul(w, CMath("ln", z)))
   ELSE IF B!IsInt(w[1]) THEN
